@@ -242,7 +242,7 @@ func vfWatchdog(f func()) {
 		if r != nil {
 			panic(r)
 		}
-	case <-time.After(2 * time.Second):
+	case <-time.After(8 * time.Second):
 		panic(vfCheckFailed{"deadlock: the call did not complete"})
 	}
 }
